@@ -170,6 +170,22 @@ C03_DepsCounted ==
   \A t \in DOMAIN task : task[t].st = "W" /\ t \in AllTasks =>
      task[t].nd = Cardinality({d \in tinfo[t].deps : d \in DOMAIN task /\ Out(d) # "Finished"})
 
+(* C04 - resources held by the tasks running on a worker (the index level is module Alloc) *)
+AllocAmount(a, r) == SumOver({k \in DOMAIN a : a[k].r + 1 = r}, LAMBDA k : a[k].amount)
+HeldOfIndex(a, r, i) ==
+  SumOver({k \in DOMAIN a : a[k].r + 1 = r},
+          LAMBDA k : SumOver({m \in DOMAIN a[k].idx : a[k].idx[m].i = i},
+                             LAMBDA m : IF a[k].idx[m].f = 0 THEN 10000 ELSE a[k].idx[m].f))
+IndicesOf(a, r) == UNION {{a[k].idx[m].i : m \in DOMAIN a[k].idx} : k \in {k \in DOMAIN a : a[k].r + 1 = r}}
+C04_RunningExclusive ==
+  \A w \in DOMAIN wk \cap Workers : \A r \in 1..NRes(w) :
+     /\ SumOver(wk[w].running, LAMBDA x : AllocAmount(x.alloc, r)) <= srv[w].total[r]
+     /\ \A i \in UNION {IndicesOf(x.alloc, r) : x \in wk[w].running} :
+          SumOver(wk[w].running, LAMBDA x : HeldOfIndex(x.alloc, r, i)) <= 10000
+C04_RunningExact ==
+  \A w \in DOMAIN wk \cap Workers : \A x \in wk[w].running :
+     ~IsMn(x.rq) => \A r \in 1..NRes(w) : AllocAmount(x.alloc, r) = ReqAmount(x.rq, x.v, r, w)
+
 (* C05 - no overbooking, placement only where runnable *)
 C05_NoOverbook ==
   \A w \in Workers : srv[w].kind = "sn" =>
